@@ -221,9 +221,22 @@ def momentum(ctx):
     ch = [c for c in ev.calls if c.callee.endswith('.sharded_chain')]
     ctx.need('C15.T4', len(ch), 1, 'sharded_chain call in momentum.apply')
     a = ch[0].args.get('args', NONE)
-    lst = a.args[0].args[0] if a.op == 'tuple' and len(a.args) == 1 and a.args[0].op == 'starred' else a
+    by_result = {id(rc.result): rc for rc in ev.calls if rc.result is not None}
+
+    def flat(t):
+      # the chain members in order, through *splats and list concatenations
+      if t.op == 'starred':
+        return flat(t.args[0])
+      if t.op in ('list', 'tuple'):
+        out = []
+        for e_ in t.args:
+          out.extend(flat(e_) if e_.op == 'starred' else [e_])
+        return out
+      if t.op == 'bin' and t.args[0] == '+':
+        return flat(t.args[1]) + flat(t.args[2])
+      return [t]
     names = []
-    for e in lst.args if lst.op in ('list', 'tuple') else []:
+    for e in flat(a):
       rep = None
       if e.op == 'star':
         rep = e.args[1]
@@ -239,7 +252,8 @@ def momentum(ctx):
         okv = cmpr.same(e.args[1][0], spec_term(ev, '1 - o.momentum_decay', {'o': sym('param', fi.short, 'options')}))
         names.append('scale(1-decay)' if okv else 'scale(?)')
       elif fn_name(e) == '_sharded_trace':
-        okv = path_str(e.args[1][0]) == 'options.momentum_decay' and path_str(e.args[1][1]) == 'options.nesterov'
+        bound_ = by_result[id(e)].args if id(e) in by_result else {}
+        okv = path_str(bound_.get('momentum', NONE)) == 'options.momentum_decay' and path_str(bound_.get('nesterov', NONE)) == 'options.nesterov'
         names.append('trace' if okv else 'trace(?)')
       elif is_ext_call(e, 'optax.add_decayed_weights'):
         names.append('wd' if path_str(e.args[1][0]) == 'options.weight_decay' else 'wd(?)')
